@@ -99,18 +99,46 @@ def _observe(wt, fmt):
                 view.append([p, Tag(k), b"", False])
         basis = wt.basis_tree()
         changes = []
-        with basis.lock_read():
-            for c in wt.iter_changes(basis):
-                changes.extend(_canon_change(c, fmt))
-    changes.sort(key=lambda r: ((r[0] or ""), (r[1] or ""), repr(r)))
-    return view, changes
+        try:
+            with basis.lock_read():
+                raw = list(wt.iter_changes(basis))
+        except Exception as e:
+            changes = Err(type(e).__name__)
+        else:
+            modified = {c.path[0] for c in raw if c.path[0] is not None and c.path[0] == c.path[1]}
+            for c in raw:
+                changes.extend(_canon_change(c, fmt, modified))
+            changes.sort(key=lambda r: ((r[0] or ""), (r[1] or ""), repr(r)))
+    vset = {r[0] for r in view}
+    extras = [r for r in _disk_listing(wt.basedir) if r[0] not in vset]
+    return view, changes, extras
+
+
+def _disk_listing(base):
+    """every path on disk below the tree root except the control directory: [path, kind, bytes, exec]"""
+    out = []
+    for dp, dn, fn in os.walk(base):
+        rel = os.path.relpath(dp, base)
+        rel = "" if rel == "." else rel
+        if rel == "":
+            dn[:] = [d for d in dn if d not in (".bzr", ".git")]
+        for n in dn:
+            out.append([(rel + "/" if rel else "") + n, Tag("directory"), b"", False])
+        for n in fn:
+            p = os.path.join(dp, n)
+            st = os.lstat(p)
+            with open(p, "rb") as f:
+                data = f.read()
+            out.append([(rel + "/" if rel else "") + n, Tag("file"), data, bool(st.st_mode & 0o100)])
+    out.sort(key=lambda r: r[0])
+    return out
 
 
 def _k(k):
     return None if k is None else Tag(k)
 
 
-def _canon_change(c, fmt):
+def _canon_change(c, fmt, modified=()):
     p0, p1 = c.path
     if p0 == "" or p1 == "":
         if p0 == p1 and not c.changed_content and c.versioned == (True, True):
@@ -120,9 +148,15 @@ def _canon_change(c, fmt):
     if fmt == "git" and p0 is not None and p1 is not None and p0 != p1:
         # dulwich's similarity-based rename detection is presentation, not tree state: report a
         # detected rename as the removal + addition it was derived from (git identity = path)
-        return [row(p0, None, True, (True, False), (c.kind[0], None), (c.executable[0], None)),
-                row(None, p1, True, (False, True), (None, c.kind[1]), (None, c.executable[1]))]
+        add = row(None, p1, True, (False, True), (None, c.kind[1]), (None, c.executable[1]))
+        if getattr(c, "copied", False) or p0 in modified:
+            return [add]       # the source is still there (reported separately when it changed)
+        return [row(p0, None, True, (True, False), (c.kind[0], None), (c.executable[0], None)), add]
     return [row(p0, p1, c.changed_content, c.versioned, c.kind, c.executable)]
+
+
+class _NotAFile(Exception):
+    pass
 
 
 def _apply(wt, base, op):
@@ -142,10 +176,15 @@ def _apply(wt, base, op):
     elif kind == "put":
         wt.put_file_bytes_non_atomic(op[1], CONTENTS[op[2]])
     elif kind == "chmod":
-        os.chmod(os.path.join(base, op[1]), 0o755 if op[2] else 0o644)
+        p = os.path.join(base, op[1])
+        if _kind_on_disk(p)[0] != "file":
+            raise _NotAFile()          # driver-level guard: mode edits are only applied to regular files
+        os.chmod(p, 0o755 if op[2] else 0o644)
     elif kind == "osrm":
         p = os.path.join(base, op[1])
         k, _ = _kind_on_disk(p)
+        if k is None:
+            raise FileNotFoundError(p)     # (ENOTDIR below a file is reported the same way)
         if k == "directory":
             shutil.rmtree(p)
         else:
@@ -176,7 +215,7 @@ def run_ops(fmt, ops, reopen_every=5, trace=None):
                 if isinstance(e, (KeyboardInterrupt, SystemExit, AssertionError)) and op[0] not in (
                         "add", "mkdir", "rmk", "rmf", "ren", "mv", "put", "commit", "revert"):
                     raise
-                status = Err(type(e).__name__)
+                status = Err(type(e).__name__.lstrip("_"))
                 if trace is not None:
                     trace.append((i, op, repr(e)))
                 if wt.is_locked():       # a failed op must not leave the tree locked
@@ -186,9 +225,9 @@ def run_ops(fmt, ops, reopen_every=5, trace=None):
                 pre = _observe(wt, fmt)
                 del wt
                 wt = WorkingTree.open(base)
-            view, changes = _observe(wt, fmt)
-            same = True if pre is None else (pre == (view, changes))
-            out.append([status, view, changes, same])
+            view, changes, extras = _observe(wt, fmt)
+            same = True if pre is None else (pre == (view, changes, extras))
+            out.append([status, view, changes, extras, same])
         return out
     finally:
         shutil.rmtree(base, ignore_errors=True)
